@@ -4,39 +4,22 @@ import (
 	"fmt"
 	"testing"
 
-	"gorgonia.org/tensor"
+	"github.com/advancedclimatesystems/gonnx/onnx"
 )
 
 func TestProbe(t *testing.T) {
-	for _, op := range []string{"ReduceMax", "ReduceMin"} {
-		bad := map[string][]string{}
-		tot := map[string]int{}
-		for _, sh := range allShapes(5, 3) {
-			r := len(sh)
-			if r < 3 {
-				continue
-			}
-			for a := 0; a < r; a++ {
-				c := c09Case{op: op, node: mkNode(op, nil, nil, attrInts("axes", int64(a)), attrI("keepdims", 0)), x: rangeT(tensor.Float32, sh), axes: []int{a}, keepdims: false}
-				res := runOp(op, c.node, []tensor.Tensor{cloneT(c.x)})
-				v := c09Judge(c, res)
-				k := fmt.Sprintf("rank%d axis%d", r, a)
-				tot[k]++
-				if v != "" {
-					kind := "wrong"
-					if res.panicked {
-						kind = "panic"
-					}
-					bad[k+" "+kind] = append(bad[k+" "+kind], fmt.Sprint(sh))
-				}
-			}
-		}
-		for k, v := range bad {
-			n := len(v)
-			if n > 12 {
-				v = v[:12]
-			}
-			fmt.Println(op, k, n, "of", tot[k[:11]], v)
+	for _, tp := range []*onnx.TensorProto{
+		{DataType: 1, Dims: []int64{0}},
+		{DataType: 1, Dims: []int64{2, 0}},
+		{DataType: 7, Dims: []int64{0}, RawData: []byte{}},
+		{DataType: 1, Dims: []int64{}},
+		{DataType: 1, Dims: []int64{}, FloatData: []float32{1, 2}},
+		{DataType: 1, Dims: []int64{1}, FloatData: []float32{1}},
+	} {
+		r := decodeProto(tp)
+		fmt.Println(tp.DataType, tp.Dims, "->", r)
+		if r.t != nil {
+			fmt.Println("   shape", r.t.Shape(), "size", r.t.Size(), "scalar", r.t.IsScalar())
 		}
 	}
 }
